@@ -56,11 +56,17 @@ pub struct RiOpts {
     pub continue_after_virtual_error: bool,
     /// second-opinion mode, see DevSim::call_of_item
     pub call_of_item: Option<Vec<usize>>,
+    /// the caller keeps iterating after an error item caused by an expression that cannot be
+    /// evaluated: the failing statement is skipped (a `let` binds nothing, a row yields the
+    /// error item instead of its rows, a loop whose bound fails is not entered) and the
+    /// sequential reading goes on with the next statement. A failing `while` condition ends
+    /// the reference run (it would fail again on every call).
+    pub continue_after_expression_error: bool,
 }
 
 impl Default for RiOpts {
     fn default() -> Self {
-        RiOpts { row_cap: 300, step_cap: 200_000, counter_from_env: false, draws: None, continue_after_virtual_error: false, call_of_item: None }
+        RiOpts { row_cap: 300, step_cap: 200_000, counter_from_env: false, draws: None, continue_after_virtual_error: false, call_of_item: None, continue_after_expression_error: false }
     }
 }
 
@@ -388,6 +394,20 @@ impl<'a> Ri<'a> {
         Stop
     }
 
+    /// an expression of a statement could not be evaluated (no driver call was made)
+    fn statement_hazard(&mut self, h: Hazard) -> Result<(), Stop> {
+        if self.opts.continue_after_expression_error && !matches!(h, Hazard::DrawLogExhausted | Hazard::DrawMismatch(_)) {
+            if self.items.len() >= self.opts.row_cap {
+                self.end = RiEnd::RowCap;
+                return Err(Stop);
+            }
+            self.items.push(RiItem::Hazard { hazard: h, after_call: false });
+            Ok(())
+        } else {
+            Err(self.hazard(h, false))
+        }
+    }
+
     fn step(&mut self) -> Result<(), Stop> {
         self.facts.steps += 1;
         if self.facts.steps > self.opts.step_cap {
@@ -401,19 +421,20 @@ impl<'a> Ri<'a> {
         for s in b {
             self.step()?;
             match s {
-                Stmt::Let(n, e) => {
-                    let v = self.eval(e).map_err(|h| self.hazard(h, false))?;
-                    self.set(n, v);
-                }
+                Stmt::Let(n, e) => match self.eval(e) {
+                    Ok(v) => self.set(n, v),
+                    // skipped: binds nothing
+                    Err(h) => self.statement_hazard(h)?,
+                },
                 Stmt::Row(id, es) => self.row(*id, es)?,
-                Stmt::Repeat(bound, id, es) => {
-                    let n = self.eval(bound).map_err(|h| self.hazard(h, false))?;
-                    self.run_loop("n", n, &mut |ri| ri.row(*id, es))?;
-                }
-                Stmt::Loop(v, bound, inner) => {
-                    let n = self.eval(bound).map_err(|h| self.hazard(h, false))?;
-                    self.run_loop(v, n, &mut |ri| ri.block(inner))?;
-                }
+                Stmt::Repeat(bound, id, es) => match self.eval(bound) {
+                    Ok(n) => self.run_loop("n", n, &mut |ri| ri.row(*id, es))?,
+                    Err(h) => self.statement_hazard(h)?,
+                },
+                Stmt::Loop(v, bound, inner) => match self.eval(bound) {
+                    Ok(n) => self.run_loop(v, n, &mut |ri| ri.block(inner))?,
+                    Err(h) => self.statement_hazard(h)?,
+                },
                 Stmt::While(c, inner) => loop {
                     self.step()?;
                     let v = self.eval(c).map_err(|h| self.hazard(h, false))?;
@@ -544,13 +565,26 @@ impl<'a> Ri<'a> {
             match en {
                 Entry::Num(v, _) => evs.push(Ev::Num(*v as i64)),
                 Entry::Paren(e) => {
-                    let v = self.eval(e).map_err(|h| self.hazard(h, false))?;
+                    let v = match self.eval(e) {
+                        Ok(v) => v,
+                        Err(h) => {
+                            // the row yields the error item instead of its rows
+                            self.statement_hazard(h)?;
+                            return Ok(());
+                        }
+                    };
                     computed.resize(evs.len(), false);
                     computed.push(true);
                     evs.push(Ev::Num(v));
                 }
                 Entry::Bits(k, e) => {
-                    let v = self.eval(e).map_err(|h| self.hazard(h, false))?;
+                    let v = match self.eval(e) {
+                        Ok(v) => v,
+                        Err(h) => {
+                            self.statement_hazard(h)?;
+                            return Ok(());
+                        }
+                    };
                     computed.resize(evs.len(), false);
                     for j in (0..*k).rev() {
                         computed.push(true);
